@@ -150,10 +150,20 @@ m("C03", "other",
   "Safety under any faults is C01. Props/C03.lean proves every recovery mechanism for all states/inputs "
   "(duplicate writes idempotent; EOF before Metadata keeps size and checksum; late Metadata keeps the deferred "
   "procedure running; File Data after EOF without Metadata is ignored) and refers to C04/C06/C08 for NAK "
-  "re-issue, exact servicing and resumption. The liveness claim itself (recovery within the limits) is NOT a "
-  "theorem: it is explored on implementation and model over random <=3-fault schedules.",
-  "Lean 4 mechanism theorems + bounded fault-schedule exploration (liveness not proved)", "§6 C03",
-  ["liveness under an adversarial link is explored, not proved (DESIGN.md §6 C03 stage 4)"])
+  "re-issue, exact servicing and resumption. WHOLE-RUN RECOVERY THEOREMS for the receiver model, for every "
+  "file, segment length, header configuration and checksum type (deferred NAK mode): "
+  "C03_single_loss_recovery — any one File Data PDU but the last never arrives: later data is stored behind a "
+  "zero-filled hole, the EOF is acknowledged, the next call queues exactly one NAK with scope (0,|F|) and the "
+  "single request (a,b), the retransmission fills the hole, the checksum is verified, one Finished PDU, idle, "
+  "file byte-identical; C03_tail_loss_recovery — everything from an offset on is missing at the EOF. The "
+  "liveness claim for arbitrary <= K fault schedules (recovery within the limits) is NOT a theorem: it is "
+  "explored on implementation and model — exhaustively for every schedule of one or two dropped PDUs per "
+  "configuration, sampled for <= 3 mixed faults.",
+  "Lean 4 theorems (recovery mechanisms for all states; whole-run recovery from one loss by forward simulation "
+  "+ list lemmas on the file with a hole) + exhaustive <=2-drop and sampled fault-schedule exploration "
+  "(general liveness not proved)", "§6 C03, §11",
+  ["liveness under an adversarial link with K > 1 faults / duplication / reordering is explored, not proved "
+   "(DESIGN.md §6 C03 stage 4); the proved recovery runs are receiver-side, deferred NAK mode"])
 m("C04", "proof",
   "silent-peer scenarios for the three retry procedures with limits 1..4 and intervals 500..2000 ms: calls "
   "one ms before each expiry (nothing may happen), exactly at it; the awaited ACK after j < N expiries; exact "
